@@ -924,6 +924,8 @@ func TestVerifC17(t *testing.T) {
 			c17Pool(t, r)
 		case "mgr-seq":
 			c17Manager(t, r)
+		case "mgr-fine":
+			c17Fine(t, r)
 		case "stress":
 			c17Stress(t, r)
 		default:
@@ -933,6 +935,7 @@ func TestVerifC17(t *testing.T) {
 	}
 	c17Pool(t, r)
 	c17Manager(t, r)
+	c17Fine(t, r)
 	deadlocked := false
 	if pn := zv.Recover(func() { deadlocked = c17Deadlock(t, r) }); pn != "" {
 		r.Violation("pool-panic:deadlock-schedule", "a pool method panicked in the two-thread schedule: "+pn, map[string]any{"kind": "deadlock-schedule"})
